@@ -7,7 +7,7 @@ CHECKS = {
  "C01": dict(
     category="exploration",
     technique="generative testing with rustc as oracle: proptest-generated schema models (supported-subset grammar) rendered to XSD/WSDL, emitted by zeep in a worker, type-checked with rustc --emit=metadata against exactly the six documented crates; failures shrunk on the model",
-    text="Hundreds (thorough: thousands) of generated schema sets covering every production of the supported subset (multi-file import DAGs, all occurrence combinations, nested sequences, choices, cross-file extensions, element refs, derived simple types, list/union, attributes, keyword member names, default-namespace and re-used prefixes, forward references, WSDLs with headers / one-way / unnamed body parts) are emitted and compiled as a module of a crate that links only yaserde, yaserde_derive, xml-rs, log, reqwest, tokio. The repository's own inputs serve as a regression corpus against a committed baseline. Held = every accepted generated input compiled.",
+    text="Hundreds (thorough: thousands) of generated schema sets covering every production of the supported subset (multi-file import DAGs, all occurrence combinations, nested sequences, choices, cross-file extensions, element refs, derived simple types, list/union, attributes, keyword member names, default-namespace and re-used prefixes, forward references, WSDLs with headers / one-way / unnamed body parts) are emitted and compiled as a module of a crate that links only yaserde, yaserde_derive, xml-rs, log, reqwest, tokio. Deny-by-default lints stay on (only warnings are allowed), fixed edge inputs with facet and occurrence bounds beyond 32 and 64 bits must compile when accepted, and the repository's own inputs serve as a regression corpus against a committed baseline. Held = every accepted generated input compiled.",
     note="Trusted: rustc and the dependency artifacts built from the repository's Cargo.lock. Gate: type names colliding with prelude identifiers are masked (open finding F17, replayed separately). Inputs outside the grammar are only covered by C13.",
     design="DESIGN.md section 4 C01"),
  "C02": dict(
@@ -19,7 +19,7 @@ CHECKS = {
  "C03": dict(
     category="exploration",
     technique="generative testing with an independent infoset oracle: values generated from the schema model are compiled into a driver as Rust expressions, serialized by yaserde inside the driver, parsed by roxmltree and compared with the infoset the model prescribes",
-    text="For generated schema sets, up to five root types each receive three generated values (optionals present/absent, repeats, numeric extremes of every builtin, XML-special and multi-byte text, facet-conformant restricted values, one branch per choice). The serialized document must be namespace-well-formed (roxmltree parses it), every element must carry the local name and the namespace of its declaring schema, attributes must be unqualified and named as declared, children must follow declaration order with one element per item and nothing for absent optionals, and leaf text must equal the value in the value space of its builtin.",
+    text="For generated schema sets, up to five root types each receive three generated values (optionals present/absent, repeats, numeric extremes of every builtin, XML-special and multi-byte text, facet-conformant restricted values, one branch per choice). The serialized document must be namespace-well-formed (roxmltree parses it), every element must carry the local name and the namespace of its declaring schema, attributes must be unqualified and named as declared, children must follow declaration order with one element per item and nothing for absent optionals, and leaf text must equal the value in the value space of its builtin. Request and response envelopes of generated WSDLs (40 quick, 400 thorough) are serialized and compared in the same way.",
     note="Trusted: roxmltree, the expected-infoset construction (values.rs). Excluded as yaserde 0.12 behaviour shown on hand-written structs: tabs/newlines in attribute values, XML-special characters in attributes of struct (simple-type) type (escaped twice), empty text nodes. Member names are canonical.",
     design="DESIGN.md section 4 C03"),
  "C04": dict(
@@ -37,7 +37,7 @@ CHECKS = {
  "C06": dict(
     category="exploration",
     technique="property-based differential testing: exhaustive small-bound sweep + proptest-generated triples against an executable XSD-facet specification (i128)",
-    text="Every (carrier, value, restriction set) triple in an exhaustive small-bound sweep (all subsets of the numeric facets, of the length facets and of an enumeration pool, all integer carriers with their extremes, multi-byte strings) and tens of thousands of proptest-generated full-range triples with Option/Vec nesting are run through the helper source compiled unmodified from /repo and compared with an independent facet specification. Disagreements are minimised to their cause and shrunk. Held = no disagreement on anything explored; not a proof for all i32 bounds.",
+    text="Every (carrier, value, restriction set) triple in an exhaustive small-bound sweep (all subsets of the numeric facets, of the length facets and of an enumeration pool, all integer carriers with their extremes, multi-byte strings) and tens of thousands of proptest-generated full-range triples with Option/Vec nesting are run through the helper source compiled unmodified from /repo and compared with an independent facet specification. Disagreements are minimised to their cause and shrunk. Held = no disagreement on anything explored; not a proof for all bounds (bounds are generated over the whole 64-bit range).",
     note="Trusted: the harness's facet specification (c06.rs spec_leaf), rustc. Text that is a decimal/float/padded numeral under numeric facets is generated but not judged.",
     design="DESIGN.md section 4 C06"),
  "C07": dict(
@@ -61,7 +61,7 @@ CHECKS = {
  "C10": dict(
     category="exploration",
     technique="property-based testing over an adversarial namespace-URI family with a static oracle: the emitted file is parsed with syn and the prefix<->URI and URI<->module relations collected from every yaserde attribute must be bijections, with every used prefix declared",
-    text="Thousands of generated file sets (1-6 files, target namespaces and extra declarations drawn from URIs built to collide under three-letter abbreviation, prefixes declared on the root / on the component / not at all, any import relation and order, optional WSDL wrapper, collision ladders) are emitted in workers and the output is read with syn. Exactly the statement is asserted: no duplicate module, one prefix per URI and one URI per prefix over the whole file, one module per target namespace holding all its structs, every prefix used by a field or an envelope declared somewhere.",
+    text="Thousands of generated file sets (1-6 files, target namespaces and extra declarations drawn from URIs built to collide under three-letter abbreviation, prefixes declared on the root / on the component / not at all, any import relation and order, namespaces imported without a schemaLocation whose file is loaded through another path, URIs abbreviating to the reserved prefix xml, optional WSDL wrapper, collision ladders) are emitted in workers and the output is read with syn. Exactly the statement is asserted: no duplicate module, one prefix per URI and one URI per prefix over the whole file, one module per target namespace holding all its structs, every prefix used by a field or an envelope declared somewhere.",
     note="Trusted: syn and the attribute walker in outscan.rs. Visibility of a declaration where yaserde needs it, and NCName-validity of prefixes, are wire-level facts left to C03/C04.",
     design="DESIGN.md section 4 C10"),
  "C11": dict(
@@ -73,19 +73,19 @@ CHECKS = {
  "C12": dict(
     category="exploration",
     technique="metamorphic property-based testing: byte equality of outputs across sampled hash seeds (repeats, threads, fresh processes), permuted file registration orders and call histories on one FilesToRead, over generated order-sensitive WSDLs and the repository corpus",
-    text="Every repository input and proptest-generated WSDLs with many operations / multi-part messages are generated repeatedly: in-process (fresh RandomState per map), in threads, in K fresh processes, under every registration order of the sibling files, three times on the same FilesToRead object, and written twice from one document; all outputs must be byte-identical to the first. Hash seeds are sampled, not controlled; with >= 3 operations 8 seeds agreeing by chance is < 1e-5.",
+    text="Every repository input and proptest-generated WSDLs with many operations / multi-part messages are generated repeatedly: in-process (fresh RandomState per map), in threads, in K fresh processes, under every registration order of the sibling files, three times on the same FilesToRead object, written twice from one document, and from eight directory arrangements (creation orders; an unreadable stray sibling under several names) through the directory entry point; all outputs must be byte-identical to the first (with the stray sibling: the outcomes must agree with each other). Inputs include schema sets from the model generator. Hash seeds are sampled, not controlled; with >= 3 operations 8 seeds agreeing by chance is < 1e-5.",
     note="Trusted: byte comparison. readdir order of a real file system is approximated by registration order here; the CLI directory-order axis is covered by C17.",
     design="DESIGN.md section 4 C12"),
  "C13": dict(
     category="exploration",
     technique="structure-aware mutation fuzzing driven by proptest (16 mutation operators on roxmltree positions, 1-3 per case) over real and generated schema sets, each generation in an isolated worker process classified returned / panicked / killed / timeout; thorough adds a coverage-guided libFuzzer campaign",
-    text="Thousands of mutants of the repository's schemas, generated WSDLs, import graphs and an extension/list/union/group schema (dangling, duplicate, self- and mutually-referential QNames, swapped tags, spliced subtrees, odd names, truncation, junk) plus API-edge probes (300 colliding namespaces, 3000 nested sequences, 1500-long forward chains, empty files) are read and written in worker processes under a watchdog. Outcome must be a returned document or a returned error. Failures are clustered by panic site / signal and shrunk.",
+    text="Thousands of mutants of the repository's schemas, generated WSDLs, import graphs and an extension/list/union/group schema (dangling, duplicate, self- and mutually-referential QNames, swapped tags, spliced subtrees, odd names, truncation, junk) plus API-edge probes (300 colliding namespaces, 3000 nested sequences, 1500- and 2500-long forward chains, doubled references into a foreign namespace, 40 levels of same-named element/group pairs, empty files) are read and written in worker processes under a watchdog. Outcome must be a returned document or a returned error. Failures are clustered by panic site / signal and shrunk.",
     note="Trusted: the worker protocol and watchdog (10 s + 1 s per 100 KB, confirmed twice at 3x before it counts). Nothing is concluded about inputs the mutators and the fuzzer never produce.",
     design="DESIGN.md section 4 C13"),
  "C14": dict(
     category="exploration",
     technique="exhaustive keyword x spelling x position matrix plus proptest-chosen injection payloads at every position where schema text flows into the output; oracle on the token level (syn / proc-macro2: parse, identifier tokens, evaluated string literals) followed by rustc",
-    text="Every Rust keyword (strict, reserved, 2024) in three spellings is used as element, attribute, complex type, simple type, global element, operation, part and message name (1224 WSDLs). Hundreds of payloads built to break out of string literals, attributes, comments, constructors and function bodies (each carrying a unique marker and a unique identifier to inject) are placed at 16 positions (names, enumeration and facet values, documentation, namespace URI, address, soapAction, service name). The output must parse, must not contain the injected identifier as a token, every literal carrying the marker must evaluate to the original text (URLs: equal after parsing), and rustc must accept the file.",
+    text="Every Rust keyword (strict, reserved, 2024) in three spellings is used as element, attribute, complex type, simple type, global element, operation, part, message and service name (1377 WSDLs). The full product of 44 dangerous texts x 16 positions, every dangerous text in each part of the address and action URLs, 16 whole names that are not words, and (thorough) thousands of further payloads built to break out of string literals, attributes, comments, constructors and function bodies (each carrying a unique marker and a unique identifier to inject) are placed at 16 positions (names, enumeration and facet values, documentation, namespace URI, address, soapAction, service name). The output must parse, must not contain the injected identifier as a token, every literal carrying the marker must evaluate to the original text (URLs: equal after parsing), and rustc must accept the file.",
     note="Trusted: syn, proc-macro2 tokenisation, rustc. Text that only reaches comments is invisible to the token oracle and accepted as long as the file parses and nothing was injected. Inputs the generator rejects are not failures.",
     design="DESIGN.md section 4 C14"),
  "C15": dict(
@@ -97,25 +97,25 @@ CHECKS = {
  "C16": dict(
     category="exploration",
     technique="model-based property testing of call histories: proptest-generated scripts (status x body x transport x credentials per call) against a raw-socket loopback HTTP server that records requests; oracle = scripted reference model of the exchange",
-    text="Over a thousand generated scripts of 1-4 calls drive the helper send function (compiled unmodified from /repo) with probe envelopes against a scripted server that can refuse, close before or after headers, and answer any status/body combination. Per call the recorded traffic (exactly one POST, target, body bytes, Basic credentials iff configured) and the returned Result (value iff 2xx and envelope body, equal to the scripted value; error otherwise) are compared with the script. Failures are shrunk to a minimal script.",
+    text="Over a thousand generated scripts of 1-4 calls drive the helper send function (compiled unmodified from /repo) with probe envelopes against a scripted server that can refuse, close before or after headers, and answer any status/body combination. Generated clients of generated WSDLs post to the address their constructor took from the WSDL port (host and port replaced by the listener's) and must arrive at exactly that path and query. Per call the recorded traffic (exactly one POST, target, body bytes, Basic credentials iff configured) and the returned Result (value iff 2xx and envelope body, equal to the scripted value; error otherwise) are compared with the script. Failures are shrunk to a minimal script.",
     note="Trusted: the loopback server and reqwest's HTTP framing. Covers the helper that every generated method forwards to; that generated methods forward client, location and credentials unchanged is checked with compiled generated clients in C05.",
     design="DESIGN.md section 4 C16"),
  "C17": dict(
     category="exploration",
     technique="property-based scenario testing of the built zeep binary in sandbox directories (generated input sets, damage, cwd, path spelling, output option, pre-existing output, uncreatable targets, file creation order) with a differential oracle against the library's bytes and a before/after comparison of the output file",
-    text="Hundreds of generated CLI scenarios are executed against the zeep binary built from the current tree. Exit 0 requires the output file to equal the library's bytes for the same contents with no stale tail; a non-zero exit requires the pre-existing output to be byte-identical; inputs the library accepts must succeed under every path spelling and working directory. Failures are shrunk to a minimal scenario.",
+    text="Hundreds of generated CLI scenarios are executed against the zeep binary built from the current tree. Exit 0 requires the output file to equal the library's bytes for the same contents with no stale tail; a non-zero exit requires the pre-existing output to be byte-identical; inputs the library accepts must succeed under every path spelling, working directory and layout (a second dot in the file name, symlinked siblings); with an unreadable sibling the outcome must not depend on where the directory lists it. Failures are shrunk to a minimal scenario.",
     note="Trusted: in-process library bytes as reference (C12 holds on this tree). Run as root: permission-based failures are replaced by uncreatable targets and a non-UTF-8 sibling. A file created where none existed before a failing run is not judged (the statement speaks of pre-existing output).",
     design="DESIGN.md section 4 C17"),
  "C18": dict(
     category="exploration",
     technique="generative compile-time testing: for every generated client rustc must accept a module that passes each method future and free-standing operation future to assert_send, asserts Send+Sync for every envelope type and spawns the calls on a multi-thread tokio runtime",
-    text="For generated WSDL clients of all operation shapes rustc type-checks Send assertions on the future of every service method and of every free-standing operation function, Send + Sync assertions on all envelope types, and a tokio::spawn of each call on a multi-thread runtime. A diagnostic inside the assertion module is a C18 failure (e.g. an Rc held across an await).",
+    text="For generated WSDL clients of all operation shapes rustc type-checks Send assertions on the future of every service method and of every free-standing operation function, Send + Sync assertions on all envelope types, and a tokio::spawn of each call on a multi-thread runtime. A diagnostic inside the assertion module is a C18 failure (e.g. an Rc held across an await). Once per run the helper source is compiled with a hand-written Send-but-not-Sync request envelope: the helper futures must still be Send.",
     note="Trusted: rustc's auto-trait checking. Nothing is executed against a network.",
     design="DESIGN.md section 4 C18"),
  "C19": dict(
     category="exploration",
     technique="property-based testing with a bare-twin oracle: proptest values of hand-written yaserde probe types, bare vs MultiRef-wrapped, compared on bytes, Debug, restriction verdicts and Arc sharing",
-    text="Thousands of generated values of six probe shapes (text, attributes, nested Option/Vec members, restricted simple type, flattened attribute group, self-referential node) are serialized, deserialized (including damaged documents) and restriction-checked once bare and once wrapped in MultiRef (root and field positions); every observable must be equal, and clones must share the Arc. Held = equal on everything generated.",
+    text="Thousands of generated values of six probe shapes (text, attributes, nested Option/Vec members, restricted simple type, flattened attribute group, self-referential node) are serialized, deserialized (including damaged documents) and restriction-checked (a short history of checks with and without a restriction set on the same value) once bare and once wrapped in MultiRef (root and field positions); every observable must be equal, and clones must share the Arc. Held = equal on everything generated.",
     note="Trusted: yaserde derive on the bare twin (its quirks cancel out). Recursive shapes are only deserialized when childless because yaserde 0.12 itself hangs on nested same-type elements (shown with a hand-written Box wrapper).",
     design="DESIGN.md section 4 C19"),
 }
